@@ -111,3 +111,44 @@ M["C20"] = dict(level="proof", design_ref="5/C20",
     technique="fault enumeration on the real code: an OSError injected at every k-th low-level I/O operation of a clean run, plus input-induced failures, observing .closed on the handles while the exception is alive",
     level_text="Every k of every clean trace (<= 112 operations quick, 193 thorough) x call kinds read(str), read(Path), write(path), to_csv(path), caller-supplied objects; 12 input-induced failure classes.",
     level_note="Enumeration is complete per clean trace; the set of fixtures/options is a sample.", assumptions=[])
+
+
+# ---- updates after the deductive cores were built (DESIGN section 4/7)
+def _upd(pid, **kw):
+    M[pid].update(kw)
+
+_P = "Proved on every run (all inputs, all iterations): "
+_B = " Bounded (never counted as proved): "
+_upd("C01", level="other",
+     technique="contracts on the real cell formatter (W5), the data-row loop (W7, unwrapped) and the reader's column-count block (R5) discharged by z3; regular-language lemma on the reader's substitution table; bounded write->read over the option product",
+     level_text=_P + "format_data_section_line writes NaN as the current NULL value and every other cell as spacer + (fmt % x) right-justified unless the width is -1; the row loop writes one physical line per row holding the cells of that row in curve order (unwrapped); "
+                "LASFile.read calls the column sniffer with the cursor at the section title and uses the sniffed count or, when inconsistent, the declared curve count; no read substitution fires inside a well-formed numeric token." + _B +
+                "the float<->text steps, textwrap, genfromtxt and the whole write->read relation over curve counts 1..40 x 16 option axes x both engines.")
+_upd("C02", level="other",
+     technique="contracts on the real find_sections_in_file, the normal engine's token generator and the numpy engine's row arithmetic discharged by z3; substitution-table lemma; engine comparison against ground truth with the engine-trace hook as bounded stand-in for genfromtxt",
+     level_text=_P + "the section table; the normal engine tokenises exactly the non-comment non-empty lines of the section body, in order, and consumes no line beyond it; the numpy engine hands genfromtxt skip_header = title+1 and max_rows = number of body lines after rewinding the file." + _B +
+                "genfromtxt itself and the equality of the two engines' arrays, over layouts x ~A placements x CRLF x final newline.")
+_upd("C03", level="other",
+     technique="contracts on the real standardize_value, get_section_widths, the three header-section loops of writer.write (obligation: blank run between unit and value >= 1) and the reader's value conversion discharged by z3; bounded write->read of headers",
+     level_text=_P + "widths are the maxima over the section's items of len(original mnemonic) and len(unit)+1+len(the field printed after it, chosen by the ORIGINAL mnemonic's order); values of ~Well/~Parameter are normalised before measuring; hence in every header line of ~Well, ~Parameter and ~Curves "
+                "at least one blank separates unit and value, whatever the other items are; on reading, a value is kept verbatim unless it is a numeric literal." + _B + "the regex parse of the written line and the full write->read comparison.")
+_upd("C06", level="other")
+_upd("C07", level="other",
+     technique="contracts on find_sections_in_file, the token generator, the column-count block R5 (call-site precondition: cursor at the section title) and the column-assignment loop R7 discharged by z3; substitution-table lemma; coordinate-carrying cells as bounded stand-in for numpy reshape",
+     level_text=_P + "the column count handed to the engine is the sniffed count or the declared curve count, computed with the cursor at the title; column j of the engine's output becomes the data of curve j; declared curves keep their place and metadata; surplus columns become new unnamed curves after them; "
+                "exactly one flag per curve records which got data (the NaN fill loop that follows is bounded)." + _B + "numpy reshape of the token stream and the whole statement over d 0..5 x c 1..6 x r 1..25 x engines.")
+_upd("C09", level="other")
+_upd("C10", level="other",
+     technique="contracts on the real defaults.get_default_items and LASFile.__init__ (every section and item freshly allocated, nothing module-level reachable) discharged by z3; channel x encoding matrix and purity scenarios as bounded stand-in",
+     level_text=_P + "a new LASFile's four header sections and all their items are objects that did not exist before the call and the sections are pairwise distinct - so two LASFile objects never share default state." + _B +
+                "codecs, channel dispatch and the purity of read() over interleavings (380 action sequences).")
+_upd("C11", level="other",
+     technique="writer contracts of C03 (idempotent normalisation, widths, pad >= 1) discharged by z3; read->write cycles as bounded stand-in",
+     level_text=_P + "the in-memory normalisation done by write() is idempotent (a second write measures and writes the same values) and unit and value are always separated by a blank, so a unit can never absorb a value through the writer's layout." + _B +
+                "everything that goes through the regex parser: cycles 2..4 over corpus, generated files and 30 mutation kinds.")
+_upd("C14", level="other")
+_upd("C16", level="other",
+     technique="frame contracts on the real update_units_from_index_curve, update_start_stop_step, the refresh block W2 and the header loops W3 of writer.write discharged by z3; full before/after snapshots around three writes as bounded stand-in",
+     level_text=_P + "update_units_from_index_curve assigns only the unit of STRT/STOP/STEP and of the first curve; update_start_stop_step only the value of STRT/STOP/STEP; the refresh block calls them and nothing else and leaves all values alone when the index is unchanged and STOP agrees; "
+                "the header loops assign only the value of ~Well/~Parameter items (normalisation); KeyError exactly when STRT/STOP/STEP is missing." + _B + "byte-identical second write, truthfulness of STRT/STOP/STEP in the output, VERS/WRAP handling.")
+_upd("C19", level="other")
